@@ -355,6 +355,8 @@ T_STATES = T("States", "writer_next_gen", "reader_next_gen", "writer_init_gen", 
              kind="the models' state transitions equal the writerStates / readerStates slices regenerated from writer.go / reader.go; closed, in range")
 T_LEAF = T_LEAF + T("Leaf", "get_set_cc", "size_set_cc", "bc_set_cc", "bi_set_cc", "cc_set_size", "get_set_size", "bc_set_size", "bi_set_size", "cc_set_bc", "size_set_bc", "get_set_bc", "bi_set_bc", "cc_set_bi", "size_set_bi", "bc_set_bi", "get_set_bi",
            kind="law of the regenerated Go accessors themselves: a one-bit setter sets exactly its flag and leaves the other flags unchanged (every word)")
+T_LEAF = T_LEAF + T("Leaf", "cc_set_version", "cc_set_idx", "size_set_version", "size_set_idx", "bc_set_version", "bc_set_idx", "bi_set_version", "bi_set_idx",
+           kind="law of the regenerated Go accessors themselves: VersionSet / BlockSizeIndexSet leave the four option flags unchanged (every word, every argument)")
 T_POOL = T("Pool", "reach_inv", "get_size", "inv_put", "inv_get", "inv_drop", "put_foreign", "put_slice",
            kind="the shared block-buffer pools keep their size classes after every Get/Put/drop history (what the Reader's cap(b.data) bound rests on)")
 CR_FAM = dict(family="cr", variant="asm", kview=kview_w, nontrivial=nontrivial_sess,
